@@ -22,6 +22,8 @@ func init() {
 			{ID: "C09.2", Doc: "only good contacts", Floor: 6, Run: c09r2},
 			{ID: "C09.3", Doc: "at most K", Floor: 2, Run: c09r3},
 			{ID: "C09.4", Doc: "family gating", Floor: 4, Run: c09r4},
+			{ID: "C09.5", Doc: "'has answered us' is recorded only for matched responses", Floor: 5, Run: c06r1},
+			{ID: "C09.6", Doc: "family selection: want list, else the requester's own family by To4", Floor: 4, Run: c09r6},
 		},
 	})
 }
@@ -399,5 +401,69 @@ func c09r4(w *World, rr *RuleRun) {
 			}
 			rr.At(w, st, cfg.fv.Name()+" holds only "+fam+" contacts", ok2, "filter "+shortFuncName(f)+" true-class: "+sum.String())
 		}
+	}
+}
+
+// c09r6: shouldReturnNodes / shouldReturnNodes6 true-classes: with a want list, membership of n4 / n6;
+// without one, the requester's own family decided by To4() (so v4-mapped sources count as IPv4).
+func c09r6(w *World, rr *RuleRun) {
+	wc := w.P.Func("wantsContain")
+	for _, spec := range []struct {
+		fn     string
+		want   string
+		to4Nil bool
+	}{{"shouldReturnNodes", "WantNodes", false}, {"shouldReturnNodes6", "WantNodes6", true}} {
+		f := w.P.Func(spec.fn)
+		wants := w.ParamTerm(f, "queryWants")
+		src := w.ParamTerm(f, "querySource")
+		wantConst := w.P.Pkg("krpc").Types.Scope().Lookup(spec.want)
+		sum := w.FE.Summary(f, 0, "true", 0)
+		if len(sum) == 0 {
+			rr.Oblige(spec.fn, "family selector can be true", w.P.Pos(f.Pos()), false, "empty true-class")
+		}
+		for i, alt := range sum {
+			noWant := alt.Has("b", true, func(x *Term) bool {
+				return x.Op == OpBin && x.Name == "==" && ((x.Args[0].IsConst("0") && x.Args[1].Op == OpLen && termEq(x.Args[1].Args[0], wants)) || (x.Args[1].IsConst("0") && x.Args[0].Op == OpLen && termEq(x.Args[0].Args[0], wants)))
+			})
+			if noWant {
+				ok := alt.Has("n", !spec.to4Nil, func(x *Term) bool { return x.Op == OpCall && strings.HasSuffix(x.Name, ".To4") && len(x.Args) == 1 && termEq(x.Args[0], src) })
+				what := "is IPv4 (To4() ≠ nil)"
+				if spec.to4Nil {
+					what = "is not IPv4 (To4() = nil, so v4-mapped sources are IPv4)"
+				}
+				rr.Oblige(spec.fn, fmt.Sprintf("case %d: without a want list the list is sent only when the requester %s", i+1, what), w.P.Pos(f.Pos()), ok, "{"+trunc(strings.Join(alt.Facts(), " ∧ "), 240)+"}")
+				continue
+			}
+			ok := alt.Has("b", true, func(x *Term) bool {
+				if !isCall(x, wc) || len(x.Args) != 2 || !termEq(x.Args[0], wants) {
+					return false
+				}
+				if wantConst == nil {
+					return false
+				}
+				k, isK := wantConst.(*types.Const)
+				return isK && x.Args[1].Op == OpConst && x.Args[1].Name == k.Val().ExactString()
+			})
+			rr.Oblige(spec.fn, fmt.Sprintf("case %d: with a want list the list is sent only when it names %s", i+1, spec.want), w.P.Pos(f.Pos()), ok, "{"+trunc(strings.Join(alt.Facts(), " ∧ "), 240)+"}")
+		}
+	}
+	// wantsContain is membership
+	wP := w.ParamTerm(wc, "w")
+	ffW := w.FE.analysisFor(wc)
+	nT := 0
+	for _, ex := range ffW.exits {
+		for _, alt := range ex.st {
+			if !w.FE.Resolve(alt, ex.ret.Results[0]).IsConst("true") {
+				continue
+			}
+			nT++
+			ok := alt.Has("b", true, func(x *Term) bool {
+				return x.Op == OpBin && x.Name == "==" && (termEq(x.Args[0], wP) || termEq(x.Args[1], wP))
+			})
+			rr.At(w, ex.ret, "wantsContain is true only when an element equals the wanted family", ok, "{"+trunc(strings.Join(alt.Facts(), " ∧ "), 200)+"}")
+		}
+	}
+	if nT == 0 {
+		rr.Oblige(shortFuncName(wc), "wantsContain can be true", w.P.Pos(wc.Pos()), false, "")
 	}
 }
